@@ -136,3 +136,58 @@ Definition fill_args_at_p (F : fops) (p : nat) : margs :=
 Definition mutate_subsection (F : fops) (pstart : nat) (decs : list (option (option op))) : fops :=
   let F1 := resize_ops F (pstart + length decs) in
   fst (sweep F1 (fill_args_at_p F1 pstart) pstart decs).
+
+(* ------------------------------------------------------------------ *)
+(* FastOpsTemplate::clear_and_install_ops (behind new_from_ops): one forward pass over (p, op) pairs
+   given in increasing p; the tails of p_ends / var_ends are only fixed at the end *)
+Definition cai_var (p : nat) (acc : fops * list (option prel) * list (option prel)) (rv : nat * nat)
+  : fops * list (option prel) * list (option prel) :=
+  let '(F, last, prevs) := acc in
+  let '(relv, v) := rv in
+  let last_tup := nth v last None in
+  let F' :=
+    match last_tup with
+    | Some (lp, lrel) => set_ops F (set_next_v (f_ops F) lp lrel (Some (p, relv)))
+    | None => set_var_ends F (set_nth (f_var_ends F) v (Some ((p, relv), (p, relv))))
+    end in
+  (F', set_nth last v (Some (p, relv)), prevs ++ [last_tup]).
+
+Definition cai_step (acc : fops * option nat * list (option prel)) (po : nat * op)
+  : fops * option nat * list (option prel) :=
+  let '(F, last_p, last) := acc in
+  let '(p, o) := po in
+  let F1 :=
+    match last_p with
+    | Some lp => set_ops F (set_next_p (f_ops F) lp (Some p))
+    | None => set_ends F (Some (p, p))
+    end in
+  let '(F2, last2, prevs) := fold_left (cai_var p) (enumerate (o_vars o)) (F1, last, []) in
+  let nd := mkNode o last_p None prevs (repeat None (length (o_vars o))) in
+  (set_n (set_ops F2 (set_nth (f_ops F2) p (Some nd))) (f_n F2 + 1), Some p, last2).
+
+Definition clear_and_install (F : fops) (pos : list (nat * op)) : fops :=
+  match pos with
+  | [] => F
+  | _ =>
+      let nvars := length (f_var_ends F) in
+      let opslen := S (fold_left Nat.max (map fst pos) 0) in
+      let F0 := mkFops (repeat None opslen) (f_n F) None (repeat None nvars) (f_counters F) in
+      let '(F1, last_p, last) := fold_left cai_step pos (F0, None, repeat None nvars) in
+      let F2 :=
+        match f_ends F1, last_p with
+        | Some (h, _), Some lp => set_ends F1 (Some (h, lp))
+        | _, _ => F1
+        end in
+      set_var_ends F2
+        (map (fun '(ends, lastv) =>
+                match ends, lastv with
+                | Some (h, _), Some lv => Some (h, lv)
+                | Some e, None => Some e
+                | None, _ => None
+                end) (combine (f_var_ends F2) last))
+  end.
+
+(* the slot array a list of (p, op) pairs describes *)
+Definition slots_of (pos : list (nat * op)) : slots :=
+  fold_left (fun sl '(p, o) => set_nth sl p (Some o)) pos
+            (repeat None (S (fold_left Nat.max (map fst pos) 0))).
